@@ -354,8 +354,8 @@ def c09(tier, hook=None):
     for op in ops:
         for c in cfgs:
             for rhs_self in (True, False):
-                for generic in ((None, "where", "inline", "nested") if ((op in ops[:2] or tier == "thorough") and not (hook or {}).get("renamed")) else (None,)):
-                    if generic == "nested" and not (c["bl"] == "v" or c["base_is_assign"]):
+                for generic in ((None, "where", "inline", "nested", "group") if ((op in ops[:2] or tier == "thorough") and not (hook or {}).get("renamed")) else (None,)):
+                    if generic in ("nested", "group") and not (c["bl"] == "v" or c["base_is_assign"]):
                         continue          # (a reference self type with `Self` in the bounds is the open finding D15)
                     idx = len(mods)
                     src, req, d = rf.implop_module(idx, op, (c["bl"], c["br"]), rhs_self, c["want_bin"], c["want_assign"], c["base_is_assign"], generic=generic)
@@ -425,10 +425,28 @@ def c09(tier, hook=None):
             e["base"] = d["base"]
             events.append(e)
             meta.append({"desc": d, "idx": idx})
+    # unusual but legal user impls (named lifetimes on reference operands, `Self` inside tuples / arrays of Rhs and Output): whatever is
+    # derived must compile, and the user's own and the derived forms must be usable
+    if not hook:
+        wd = os.path.join(dx.WORK, "c09sp-%d" % os.getpid())
+
+        def sp(ix):
+            i, spec = ix
+            ok, out, diags = dx.compile_and_run("sp%d" % i, rf.impl_special_program(spec), wd)
+            return ok, dx.diag_summary(diags)[:3]
+        for spec, (ok, dg) in zip(rf.IMPL_SPECIALS, dx.pmap(sp, list(enumerate(rf.IMPL_SPECIALS)))):
+            events.append({"ev": "impl_compiles", "rustc_ok": ok})
+            meta.append({"special": spec[0], "diags": dg, "source": rf.impl_special_program(spec)})
+        import shutil
+        shutil.rmtree(wd, ignore_errors=True)
     n, bad, jst = dx.tlc_judge("Trace_Run", "Trace_Run.cfg", events, "c09", chunk=max(200, -(-len(events) // 8)))
     ck.add_judge(n, jst)
     for i in bad:
         e, m = events[i], meta[i]
+        if "special" in m:
+            ck.violation({"kind": "impl_special", "tag": m["special"], "codes": ",".join(sorted(set(d.get("code") or "?" for d in m["diags"])))},
+                         {"what": "operators derived from an unusual but legal user impl do not compile / cannot be used", "source": m["source"], "diags": m["diags"]})
+            continue
         d = m["desc"]
         sig = {"kind": e["ev"], "op": d["op"], "base": d["base"]["l"] + d["base"]["r"], "rhs_self": d["rhs_self"], "generic": d.get("generic", ""),
                "requested": ("Op" if d["want_bin"] else "") + ("+OpAssign" if d["want_assign"] else ""), "base_is_assign": d["base_is_assign"],
